@@ -6,6 +6,7 @@ import Driver.Lock
 import Driver.Paginate
 import Driver.Log
 import Driver.SqlText
+import Driver.Store
 /-! registry of the areas the driver serves -/
 namespace Driver
 def areas : List (String × Handler) := [
@@ -16,6 +17,7 @@ def areas : List (String × Handler) := [
   ("paginate", PaginateD.handle),
   ("logrt", LogD.handle),
   ("sqltext", SqlTextD.handle),
-  ("sqllex", SqlTextD.handleLex)
+  ("sqllex", SqlTextD.handleLex),
+  ("storeview", StoreD.handle)
 ]
 end Driver
